@@ -1,7 +1,7 @@
 (* C01 - analytic component derivatives equal the true derivatives.  Property theorems only (statements printed by Coq from the libraries Real/*Deriv.v).  DR g t0 p  :=  g t0 = fst p /\ is_derive g t0 (snd p);  every theorem says: along ANY differentiable curve of the inputs, the dual-number evaluation of the component model gives the value and the derivative - hence every partial derivative (C01_dual_number_tangent_is_the_partial_derivative) and, by composition, every chain of components (part 9) *)
 From Coq Require Import Reals ZArith Lra Lia Arith Bool List String.
 From Coquelicot Require Import Coquelicot.
-From OAS Require Import Scalar Rops Sums Deriv Dual DualProofs Drag DragDeriv Stress StressDeriv StressProofs Transfer TransferDeriv Loads LoadsDeriv Functionals FunctionalsDeriv Aero AeroDeriv PG PGDeriv Beam BeamTables BeamDeriv Geom GeomDeriv Misc MiscDeriv MultiSec MultiSecDeriv Wingbox WingboxDeriv.
+From OAS Require Import Scalar Rops Sums Deriv Dual DualProofs Drag DragDeriv Stress StressDeriv StressProofs Transfer TransferDeriv Loads LoadsDeriv Functionals FunctionalsDeriv Aero AeroDeriv PG PGDeriv Beam BeamTables BeamDeriv Geom GeomDeriv Misc MiscDeriv MultiSec MultiSecDeriv Wingbox WingboxDeriv Small SmallDeriv.
 Open Scope R_scope.
 
 (* only where both end sections are twisted (wg_twisted): the arccosine twist measure has a kink at zero twist - finding F13 *)
@@ -21,6 +21,49 @@ Theorem C01_WingboxGeometry_fem_twists :
     (wg_fem_twist nx1 mesh (dinj xu0) (dinj yu0) (dinj yl0) (dinj xun) (dinj yun) (dinj yln) e).
 Proof. exact wg_fem_twist_DR. Qed.
 Print Assumptions C01_WingboxGeometry_fem_twists.
+
+(* structures/spar_within_wing.py: mesh, radius AND t_over_c *)
+Theorem C01_SparWithinWing :
+  forall (nx1 : nat) (Mesh : R -> nat -> nat -> nat -> R) (Rad Toc : R -> nat -> R) 
+    (t0 : R) (mesh : nat -> nat -> nat -> dual R) (rad toc : nat -> dual R) (e : nat),
+  DR3 Mesh t0 mesh ->
+  DR1 Rad t0 rad ->
+  DR1 Toc t0 toc ->
+  wg_chord_ok nx1 (Mesh t0) e ->
+  wg_chord_ok nx1 (Mesh t0) (S e) ->
+  DR (fun t : R => spar_within_wing nx1 (Mesh t) (Rad t) (Toc t) e) t0 (spar_within_wing nx1 mesh rad toc e).
+Proof. exact spar_within_wing_DR. Qed.
+Print Assumptions C01_SparWithinWing.
+
+(* what the unrepaired component reported (no declared partial, i.e. zero) was wrong: fixed finding F14 *)
+Theorem C01_SparWithinWing_t_over_c_partial_is_not_zero :
+  forall (nx1 : nat) (m : nat -> nat -> nat -> R) (rad toc : nat -> R) (e : nat),
+  wg_sw nx1 m e <> 0 ->
+  forall l : R_NormedModule,
+  is_derive (fun x : R_AbsRing => spar_within_wing nx1 m rad (upd1 toc e x) e) (toc e) l -> l <> 0.
+Proof. exact spar_within_wing_toc_partial_nonzero. Qed.
+Print Assumptions C01_SparWithinWing_t_over_c_partial_is_not_zero.
+
+Theorem C01_TotalLift :
+  forall (CL1 : R -> R) (t0 : R) (cl1 : dual R) (CL0 : R),
+  DR CL1 t0 cl1 -> DR (fun t : R => total_lift CL0 (CL1 t)) t0 (total_lift (dinj CL0) cl1).
+Proof. exact total_lift_DR. Qed.
+Print Assumptions C01_TotalLift.
+
+(* integration/multipoint_comps.py, any number of flight points *)
+Theorem C01_MultiCD :
+  forall (n : nat) (CD : R -> nat -> R) (t0 : R) (cd : nat -> dual R),
+  DR1 CD t0 cd -> DR (fun t : R => multi_cd n (CD t)) t0 (multi_cd n cd).
+Proof. exact multi_cd_DR. Qed.
+Print Assumptions C01_MultiCD.
+
+(* the block of the global panel-force array of one surface (offset = panels of the surfaces before it) *)
+Theorem C01_PanelForcesSurf :
+  forall (offset npy : nat) (PF : R -> nat -> nat -> R) (t0 : R) (pf : nat -> nat -> dual R) (i j d : nat),
+  DR2 PF t0 pf ->
+  DR (fun t : R => panel_forces_surf offset npy (PF t) i j d) t0 (panel_forces_surf offset npy pf i j d).
+Proof. exact panel_forces_surf_DR. Qed.
+Print Assumptions C01_PanelForcesSurf.
 
 (* the hypothesis wg_twisted cannot be dropped: at an untwisted section (the default mesh) the twist measure is |twist|, which has no derivative; the code nevertheless reports one (finding F13, replayed on the implementation by the oracle WingboxGeometry.untwisted-sections) *)
 Theorem C01_WingboxGeometry_twist_measure_refuted_at_zero_twist :
